@@ -4,7 +4,7 @@
    version.Parse (C03) and parse_date = time.Parse(RFC1123Z); the tie instantiates parse_version with the C03
    model and parse_date with the answers of the real time.Parse, asked directly. *)
 From Coq Require Import List Ascii String Bool Arith Lia.
-Require Import GS R2 CL CL2 CL3.
+Require Import GS R2 CL CL2 CL3 HIST.
 Import ListNotations.
 
 Section C17.
@@ -40,6 +40,13 @@ Section C17.
     forall fuel', (fuel <= fuel')%nat ->
     CL.parse_fuel V T parse_version parse_date fuel' ls = CL.parse_fuel V T parse_version parse_date fuel ls.
   Proof. exact (CL.C17_fuel V T parse_version parse_date). Qed.
+
+  (* the other entry points: ParseOne returns the first entry that Parse returns and leaves the rest to it; an
+     error of ParseOne on the whole text is an error of Parse *)
+  Theorem C17_parse_one_is_the_first_entry : forall x e es, CL.parse V T parse_version parse_date x = Some (e :: es) ->
+    exists rest, CL.parse_one V T parse_version parse_date (lines_of x) = @CL.ROk _ e rest /\
+                 CL.parse_fuel V T parse_version parse_date (List.length (lines_of x)) rest = Some es.
+  Proof. exact (HIST.C17_parse_one_is_first_entry V T parse_version parse_date). Qed.
 End C17.
 Print Assumptions C17_parse_render.
 Print Assumptions C17_parse_render_no_final_newline.
